@@ -107,10 +107,21 @@ def _job(args):
                             if ok == "sub" and any(x.count(".") >= depth for x in O):
                                 ok = "named"
                             related = any(rules.related(a, b) for a, b in itertools.combinations(S + O, 2))
-                            for spec in rules.all_shapes((sk, S), (ok, O)):
+                            shapes = rules.all_shapes((sk, S), (ok, O))
+                            # both evaluations also against the model on the observed graphs (faithful to the code, K1 included): a
+                            # change of behaviour inside the known-finding class still shows as a disagreement
+                            enc_f, enc_l = rules.Enc(), rules.Enc()
+                            mres = common.model_run([[10, [enc_f.graph_direct(full[1], full[2]), [], [enc_f.cfg(sp, {}) for sp in shapes]]],
+                                                     [10, [enc_l.graph_direct(lim[1], lim[2]), [], [enc_l.cfg(sp, {}) for sp in shapes]]]])
+                            for si, spec in enumerate(shapes):
                                 a = rules.run_rule(rules.build_rule(spec), full[3])
                                 b = rules.run_rule(rules.build_rule(spec), lim[3])
                                 out["n"] += 1
+                                for which, io, enc_x, mr in (("full", a, enc_f, mres[0]), (f"level_limit={k}", b, enc_l, mres[1])):
+                                    mo = enc_x.dec_outcome(mr[si][1]) if mr not in (None, common.SX_ERR) else ("ERR", "model rejected the case")
+                                    if not rules.same_verdict(io, mo):
+                                        out["disagreements"].append((dict(case, spec=rules._jsonable_spec(spec), architecture=which, impl=io[0], model=mo[0]),
+                                                                     f"model and implementation differ on a rule over the {which} architecture: impl={io[0]} model={mo[0]}"))
                                 if a[0] != b[0]:
                                     c2 = dict(case, spec=rules._jsonable_spec(spec), full=a[0], limited=b[0], related_subject_object=related)
                                     tags = {"kind": "verdict", "rule_has_related_subject_object": related, "level_limited": True}
